@@ -102,9 +102,12 @@ PLAN["C04"] = other(
 PLAN["C10"] = other(
     "Deductive: the merge kernel IntervalTier.insertEntry(merge) that union is built on, and the overlap classifier "
     "getIntervalsInInterval (crop truncated) that intersection/mergeLabels/difference are built on, are proved against "
-    "their specs. Bounded: all pairs of tiers on a 5-cell grid x 2 labels against the labelled-time algebra.",
+    "their specs; union (interval and point tiers) and difference are proved to return a well-formed tier without "
+    "mutating their operands for all pairs of tiers (loop invariant rule R-INV over the insertEntry / eraseRegion "
+    "contracts). Bounded: all pairs of tiers on a 5-cell grid x 2 labels against the labelled-time algebra.",
     "Set operations obey the algebra of labelled time for all 571x571 grid pairs (+6-cell pairs in thorough, random "
-    "larger pairs); their kernels are proved for all inputs.", ["c10_setops"])
+    "larger pairs); their kernels, and well-formedness of union / difference results, are proved for all inputs.",
+    ["c10_setops"])
 PLAN["C14"] = other(
     "Deductive: PointTier.dejitter proved equal to the spec from the property for all tiers, all reference timestamp "
     "lists and all maxDifference > 0 (each time moves to the nearest reference timestamp - the first of two "
@@ -208,8 +211,10 @@ PLAN["C05"] = other(
     "TextgridStateError / TimelessTextgridTierException), and crop, editTimestamps, insertSpace, appendTier, "
     "eraseRegion (no shrink; points both), insertEntry are each proved to return / leave a well-formed tier on every "
     "path (ensures valid, in-span, stripped, disjoint, sorted), raising only praatio errors. Bounded: random histories "
-    "of all 15 operations (length <= 12) for the operations not under contract (union, difference, intersection, "
-    "mergeLabels, dejitter, morph, deleteEntry on points, interval shrink).",
+    "of all 15 operations (length <= 12) incl. the operations not under contract (intersection, mergeLabels, morph, "
+    "interval dejitter, interval shrink). union (both tier classes) and difference are proved to return a "
+    "well-formed tier by carrying the class invariant through their loops (rule R-INV); PointTier.dejitter and "
+    "deleteEntry likewise preserve it.",
     "Every tier produced by an operation under contract is well-formed for all inputs (invariant preservation, hence "
     "all histories of those operations); the remaining operations are covered by bounded histories.",
     ["c05_histories"])
@@ -282,6 +287,10 @@ CANARIES = [
      "target": "praatio.data_classes.textgrid.Textgrid.appendTextgrid",
      "old": "if onlyMatchingNames is False:", "new": "if onlyMatchingNames is True:",
      "config": ["ka=1,kb=1,onlyMatchingNames=True", "ka=1,kb=1,onlyMatchingNames=False"]},
+    {"name": "union-raw-append", "props": ["C10", "C05"], "file": "praatio/data_classes/textgrid_tier.py",
+     "target": "praatio.data_classes.textgrid_tier.TextgridTier.union",
+     "old": "        retTier.sort()\n\n        return retTier", "new": "        retTier._entries.reverse()\n\n        return retTier",
+     "config": ["kind=interval"]},
     {"name": "space-boundary", "props": ["C08"], "file": IT, "target": ITC + ".insertSpace",
      "old": "            if interval.end <= start:\n                newEntryList.append(interval)\n            # Entry exists after",
      "new": "            if interval.end < start:\n                newEntryList.append(interval)\n            # Entry exists after",
